@@ -27,7 +27,7 @@ m = {
     "not_applicable": [],
 }
 for pid in all_ids:
-    if pid in props.PROPS:
+    if pid in props.PROPS and not props.PROPS[pid].get("auxiliary"):
         p = props.PROPS[pid]
         m["checks"].append({
             "property_id": pid,
